@@ -22,7 +22,7 @@ def _peeled_path(f, tyid):
 
 def sources(prog):
     out = []
-    for f in sorted(prog.fns.values(), key=lambda x: x.id):
+    for f in sorted(prog.shape_fns(), key=lambda x: x.id):
         if f.body is None:
             continue
         for b, t in f.body.calls():
@@ -290,7 +290,7 @@ def run_e4g(prog, rep, rule="E4.g"):
             rep.check(not _static_is_mutable(crate, s), rule, "static %s" % s["path"], sp_str(s["sp"]), "immutable static of type %s" % ty[:80],
                       "global mutable state: static %s : %s" % (s["path"], ty[:120]))
     # thread_local! expands to a const/static + a `LocalKey` accessor fn; look for LocalKey types and __getit/… fns
-    for f, t in _thread_local_accesses(prog.fns.values()):
+    for f, t in _thread_local_accesses(prog.shape_fns()):
         rep.violation(rule, "%s :: thread-local access" % f.id, sp_str(t["sp"]), "thread-local state is read or written: results can depend on earlier executions on the same thread")
         n += 1
     for crate in (prog.lib, prog.bin):
